@@ -3,6 +3,30 @@ NOT_YET = "not claimed yet in this commit: the model/theorems for this property 
 NOT_APPLICABLE = {f"C{i:02d}": NOT_YET for i in range(1, 18)}
 
 TEXTS = {
+    "C01": {
+        "text": "Lean 4 theorems, for every input text and every history of MessageParser requests (hence for any parse_from_block4): each "
+                "successful extraction consumes exactly `white space ++ :tag: ++ content ++ newline` from the front of the remaining text, "
+                "the content contains no hidden field start, the input equals the concatenation of the consumed regions plus a remainder "
+                "that the completeness check forces to be the terminator; the 30 parse_from_block4 bodies are regenerated into call lists and "
+                "the kernel re-decides that each ends with the completeness check and propagates every parse result. The hand model of the "
+                "extraction kernel is compared with the real code on adversarial inputs; an independent-tokeniser oracle runs valid and mutated "
+                "messages of all 30 types through the real parser and serialiser.",
+        "design_ref": "DESIGN.md §5 C01, §4 T1",
+        "note": "Trusted: Lean kernel; hand models of field_extractor.rs / message_parser.rs (sampled correspondence, not proved); translator T1 "
+                "(call list, `?` propagation, completeness check; it does not prove that each stored local reaches the struct — the oracle covers "
+                "that); content equality per field is C02. Open findings are listed in known_findings.json.",
+        "technique": "Lean 4 proof (induction over request histories and text) over a hand model tied by differential correspondence, plus kernel-decided facts over translator-regenerated layouts; independent-tokeniser oracle for search",
+    },
+    "C09": {
+        "text": "Lean 4 theorems over the MessageParser model: a required field that is not next is reported as missing with its tag; a field "
+                "whose content is rejected is reported with its tag and exactly the content read, and only the field that is next can be "
+                "blamed; per type the kernel re-decides (over the regenerated call lists) that every mandatory read propagates its error. The "
+                "oracle deletes every mandatory occurrence and corrupts every occurrence of generated messages of all 30 types.",
+        "design_ref": "DESIGN.md §5 C09",
+        "note": "Trusted: as C01. Sequence-level absences (a deleted marker field, an empty mandatory sequence) are reported by the library as "
+                "'unparsed content' / free text: listed as open findings, not proved.",
+        "technique": "Lean 4 proof over the MessageParser model + kernel-decided layout facts; deletion/corruption oracle on the implementation",
+    },
     "C12": {
         "text": "Lean 4 theorems, for EVERY announced type code (unbounded Nat, hence all of 000-999) and every requested type: "
                 "auto parse, typed parse (T03 mismatch off the diagonal), wrapper, parse_mt, validate_mt and publish_mt (both key "
